@@ -311,6 +311,7 @@ PLANS = {
     "C01": plan(["flow_q", "ibc_q"], ["flow_t", "ibc_t", "flow_treasury_t"], ["flow_q"], ["flow_t", "ibc_t"], W_Q, W_T, reach=["HonestOutstanding"]),
     "C02": plan(["flow_q", "ibc_q"], ["flow_t", "ibc_t", "flow_treasury_t"], ["flow_treasury_q"], ["flow_t", "ibc_t", "flow_treasury_t"], W_Q, W_T, reach=["Received"]),
     "C03": plan(["flow_q", "ibc_q"], ["flow_t", "ibc_t"], ["flow_q"], ["flow_t", "ibc_t"], W_Q, W_T),
+    "C04": plan(["flow_q"], ["flow_t"], ["flow_q"], ["flow_t"], W_Q, W_T),
     "C05": plan(["flow_q"], ["flow_t"], ["flow_q"], ["flow_t"], W_Q, W_T, reach=["Received"]),
     "C06": plan(["flow_q"], ["flow_t"], ["flow_q"], ["flow_t"], W_Q, W_T, reach=["Received"]),
     "C07": plan(["ibc_q"], ["ibc_t"], ["ibc_q"], ["ibc_t"], W_Q, W_T, reach=["Refundable"]),
@@ -324,6 +325,75 @@ PLANS = {
 LEVEL = "model_checking"
 
 
+# ---------------------------------------------------------------------------------------------
+# C04: arithmetic proved for all naturals (TLAPS), bound to the code by exhaustive small vectors (TLC)
+# and 128-bit vectors (Apalache, unbounded integers)
+def hook_c04(binp, tier, seed, wd):
+    extra, viols = {}, []
+    # (a) TLAPS
+    pdir = os.path.join(SPEC, "proofs")
+    shutil.rmtree(os.path.join(pdir, ".tlacache"), ignore_errors=True)
+    rc, out = sh(["tlapm", "--threads", "8", "--cleanfp", "-I", "..", "ArithProofs.tla"], cwd=pdir, timeout=900)
+    m = re.search(r"All (\d+) obligations? proved", out)
+    shutil.rmtree(os.path.join(pdir, ".tlacache"), ignore_errors=True)
+    if not m:
+        raise ToolError("TLAPS did not prove spec/proofs/ArithProofs.tla\n" + out[-2000:])
+    extra["obligations"] = int(m.group(1))
+    extra["discharged"] = int(m.group(1))
+    log(f"[tlaps] ArithProofs: all {m.group(1)} obligations proved")
+    # (b) every (N, L, a) and (N, L, b <= L) of the small domain through the real helpers, checked by TLC
+    k = 40 if tier == "quick" else 70
+    small = os.path.join(wd, "arith-small.ndjson")
+    ev = json.loads(mwh(binp, ["arith-small", k, small]).strip().splitlines()[-1])
+    rc, out, wall = tlc(os.path.join(SPEC, "ArithTrace.tla"), os.path.join(SPEC, "ArithTrace.cfg"), wd, env={"TRACE": small}, timeout=900)
+    nrec = sum(1 for _ in open(small))
+    if f"TRACE-CONSUMED {nrec}" not in out:
+        raise ToolError("ArithTrace did not consume the vector file\n" + out[-2000:])
+    bad = [json.loads(unq(m2.group(1))) for m2 in (FIND_RE.match(x.strip()) for x in out.splitlines()) if m2]
+    extra["small_domain"] = {"K": k, "evaluations": ev["evaluations"], "records": nrec, "mismatching_records": len(bad), "exhaustive": True}
+    log(f"[arith] {ev['evaluations']} results of the real helpers for all N, L, a in 0..{k} checked by TLC in {wall:.1f}s: {len(bad)} bad records")
+    if bad:
+        viols.append(("small", small, bad[0]))
+    # (c) 128-bit vectors: Apalache evaluates the same definitions over unbounded integers
+    nvec = 120 if tier == "quick" else 1200
+    vecs = os.path.join(wd, "arith-big.json")
+    mwh(binp, ["arith-big", seed, nvec, vecs])
+    v = json.load(open(vecs))
+    chunks = [v[i:i + 300] for i in range(0, len(v), 300)]
+    nbad = 0
+    adir = os.path.join(wd, "apa")
+    os.makedirs(adir, exist_ok=True)
+    shutil.copy(os.path.join(SPEC, "ArithCore.tla"), adir)
+    t0 = time.time()
+    for ci, ch in enumerate(chunks):
+        rows = [f' [op |-> "{e["op"]}", n |-> {e["n"]}, l |-> {e["l"]}, x |-> {e["x"]}, r |-> {e["r"] if e["r"] != "panic" else -1}]' for e in ch]
+        mod = f"BigVectors{ci}"
+        src = ["---- MODULE " + mod + " ----", "EXTENDS Integers, Sequences, ArithCore", "VARIABLE", "  \\* @type: Int;", "  x",
+               "\\* @type: Seq({op: Str, n: Int, l: Int, x: Int, r: Int});", "Vectors == <<", ",\n".join(rows), ">>",
+               "Init == x = 0", "Next == x' = x",
+               'Inv == \\A i \\in DOMAIN Vectors : LET v == Vectors[i] IN IF v.op = "mint" THEN v.r = MintAmount(v.n, v.l, v.x) ELSE v.r = UnbondAmount(v.n, v.l, v.x)',
+               "===="]
+        open(os.path.join(adir, mod + ".tla"), "w").write("\n".join(src) + "\n")
+        rc, out = sh(["apalache-mc", "check", "--inv=Inv", "--length=0", mod + ".tla"], cwd=adir, timeout=1500)
+        if "EXITCODE: OK" in out:
+            continue
+        if "violat" in out.lower() or "EXITCODE: ERROR (12)" in out:
+            nbad += 1
+            viols.append(("big", os.path.join(adir, mod + ".tla"), {"chunk": ci}))
+        else:
+            raise ToolError("apalache failed\n" + out[-1500:])
+    shutil.rmtree(os.path.join(adir, "_apalache-out"), ignore_errors=True)
+    npanic = sum(1 for e in v if e["r"] == "panic")
+    extra["big_vectors"] = {"vectors": len(v), "chunks": len(chunks), "violating_chunks": nbad, "panics_in_representable_range": npanic,
+                            "sample": v[:2], "wall_s": round(time.time() - t0, 1)}
+    log(f"[apalache] {len(v)} 128-bit vectors of the real helpers against ArithCore: {nbad} violating chunks, {npanic} panics ({time.time()-t0:.1f}s)")
+    extra["trusted_base"] = ["tlapm 1.6.0-pre with Z3/Zenon/Isabelle back ends", "TLC", "Apalache 0.58 + Z3"]
+    return extra, viols
+
+
+HOOKS = {"C04": hook_c04}
+
+
 def run_property(prop, tier, seed):
     if prop not in PLANS:
         raise ToolError(f"no plan for {prop}")
@@ -334,6 +404,9 @@ def run_property(prop, tier, seed):
     t0 = time.time()
     binp = build(False)
     known = load_known()
+    hook_extra, hook_viols = ({}, [])
+    if prop in HOOKS:
+        hook_extra, hook_viols = HOOKS[prop](binp, tier, seed, wd)
     # 1. the design satisfies the property (bounded, exhaustive)
     mcs = [model_check(n, wd) for n in pl["mc"][tier]]
     for r in pl["reach"]:
@@ -374,6 +447,13 @@ def run_property(prop, tier, seed):
         k = [k for k in known if k["id"] == kid][0]
         print(f"KNOWN-FINDING: property={prop} {k['what']}")
     rc = 0
+    for kind, path, what in hook_viols:
+        os.makedirs(REPLAYS, exist_ok=True)
+        dst = os.path.join(REPLAYS, f"{prop}-{tier}-{seed}-{kind}-" + os.path.basename(path))
+        shutil.copy(path, dst)
+        log("finding:", json.dumps(what)[:600])
+        print(f"VIOLATION property={prop} replay={dst}")
+        rc = 1
     if new:
         f, path, tag = new[0]
         first_replay = write_replay(prop, path, f, f"{tier}-{seed}-{tag}")
@@ -398,10 +478,11 @@ def run_property(prop, tier, seed):
             "findings_this_property": len(mine), "findings_known": len(mine) - len(new),
             "findings_other_properties": others, "divergences_not_attributed": divergences,
             "checker_cmd": "tlc spec/MilkyWay.tla (MC_*.cfg) ; tlc spec/Trace.tla (TRACE=<ndjson>) ; harness/mwh tree|walk",
+            **hook_extra,
         },
         "assumptions": ["the chain modules (bank, token factory, IBC transfer, ibc-hooks) behave as transcribed in spec/Chain.tla and harness/src/sim.rs",
                         "bounds of the MC_* configurations (small scope); TLC integers are 32 bit so amounts stay below 3000"],
-        "wall_s": round(time.time() - t0, 1), "violations": len(new),
+        "wall_s": round(time.time() - t0, 1), "violations": len(new) + len(hook_viols),
     }
     os.makedirs(EVID, exist_ok=True)
     json.dump(ev, open(os.path.join(EVID, f"{prop}.json"), "w"), indent=1)
